@@ -55,3 +55,11 @@ package car
 //@   let size := call[util.LdSize#0]
 //@   call[util.LdWrite#0] assert same_section [C15]: ref(arg0) == ref(w) && len(arg1) == 2 && ref(arg1[1]) == ref(raw)
 //@   call[dynamic#0] assert reports_true_offset_and_size [C15]: arg0.Offset == offset && arg0.Size == size && arg0.BlockCID == c && ref(arg0.Data) == ref(raw)
+
+// Root-module writer (C01, C15): the header is written first; one visited set spans all roots, so a block reachable
+// from several roots is written once; each root is walked.
+
+//@ func WriteCarWithWalker
+//@   call[WriteHeader#0] assert header_first [C01,C15]: arg0.Version == 1 && arg0.Roots == roots && ref(arg1) == ref(w)
+//@   call[merkledag.Walk#0] assert one_visited_set_spans_all_roots [C01,C15]: ref(seen) == athead(0, ref(seen))
+//@   call[merkledag.Walk#0] assert walks_this_root [C01,C15]: arg2 == r
